@@ -8,7 +8,8 @@ from ..engine.program import AnalysisError, dotted, walk_local
 from ..engine.report import RuleResult
 from ..engine.dataflow import MUTATORS, base_name, target_names
 from . import common as C
-from .c02 import tree_class, tree_funcs, deps_graph, closure, getter_key_of_method
+from .c02 import (tree_class, tree_funcs, deps_graph, closure, getter_key_of_method,
+                  tree_receivers)
 from .c13 import _mutations_of
 
 PID = "C04"
@@ -269,7 +270,8 @@ def rule_track(ctx):
         if f.cls is not None and f.cls.module.path != C.CORE and ctx.tier != "thorough":
             continue
         for a in ctx.effects.direct(f)["access"]:
-            if a.attr in TRACKERS and a.kind in ("write", "mutate"):
+            if a.attr in TRACKERS and a.kind in ("write", "mutate") and \
+                    a.recv in tree_receivers(ctx, f):
                 key = ctx.key(f, "C04-TRACK", f"write:{a.attr}")
                 if f.name in TRACK_WRITERS:
                     r.ok(key, a.loc, "owner")
@@ -400,7 +402,8 @@ def rule_track(ctx):
         for call in C.method_calls(f, "_remove_node"):
             events.append(call)
         for a in ctx.effects.direct(f)["access"]:
-            if a.attr in ("_flops", "_write", "_sizes") and a.kind in ("write", "mutate"):
+            if a.attr in ("_flops", "_write", "_sizes") and a.kind in ("write", "mutate") \
+                    and a.recv in tree_receivers(ctx, f):
                 events.append(a.node)
         if not events:
             continue
